@@ -48,7 +48,11 @@ func Shrink(p *Plan) []any {
 		try(func(q *Plan) { q.Cfg.Loops = 1 })
 	}
 	if c.Ticker {
-		try(func(q *Plan) { q.Cfg.Ticker = false })
+		try(func(q *Plan) { q.Cfg.Ticker = false; q.Cfg.TickAt = nil })
+	}
+	for i := range c.TickAt {
+		i := i
+		try(func(q *Plan) { q.Cfg.TickAt = append(q.Cfg.TickAt[:i], q.Cfg.TickAt[i+1:]...) })
 	}
 	if c.CanaryPct > 0 {
 		try(func(q *Plan) { q.Cfg.CanaryPct = 0 })
